@@ -125,6 +125,15 @@ func c18Scenarios() map[string]*sched.Scenario {
 	add("S4/truncate+create+balance", "truncate", "create", "balance")
 	add("S5/orphan+create+readtrx+history", "orphan", "create", "readtrx", "history")
 	add("S6/orphan+tick+create+stream+loaded", "orphan", "tick", "create", "stream", "loaded")
+	addFull := func(name string, pre []string, roles ...string) {
+		m[name] = &sched.Scenario{Name: name, Params: []int{0}, Opt: opt, Body: c18FullBody(pre, roles), Oracle: c18Oracle(name),
+			Setup:       func() { world.GetFullNodes("G", "N1") },
+			Interesting: func(x *sched.X, r *vsched.Result) bool { return true }}
+	}
+	addFull("F1/gossip-child-before-parent+propose", nil, "gvrx1", "gvrx0", "npropose")
+	addFull("F2/gossip-trx+contract-vertex+own-contract", []string{"gvrx0", "gvrx1"}, "gtrx", "gvrx2", "ncontract")
+	addFull("F3/gossip-trx+confirm+reads", []string{"gvrx0", "gvrx1"}, "gtrx", "nconfirm", "nbalance", "nhistory")
+	addFull("F4/orphan-fetch+getvertex+propose", nil, "gvrx2", "ngetvertex", "npropose")
 	return m
 }
 
@@ -158,7 +167,7 @@ func c18Main(args []string) int {
 	for _, n := range names {
 		for s := 0; s < shards; s++ {
 			d := sd
-			if strings.HasPrefix(n, "S6") && common.Tier() != "thorough" {
+			if (strings.HasPrefix(n, "S6") || strings.HasPrefix(n, "F3")) && common.Tier() != "thorough" {
 				d = 1 // five clients: one schedule deviation in the quick tier
 			}
 			jobs = append(jobs, sched.Job{Scenario: n, Preempt: pre, Data: 0, Sched: d, ShardI: s, ShardN: shards, BudgetS: budget})
@@ -179,8 +188,8 @@ func c18Main(args []string) int {
 	rep.Set("caps_hit", tot.Caps)
 	rep.Set("bound_completed", map[string]any{"preemptions": pre, "schedule_deviations": sd})
 	rep.Set("per_scenario", tot.PerScenario)
-	rep.Set("detector", "vector-clock happens-before over spawn, Mutex/RWMutex, channel, WaitGroup, atomic and (conservatively) per-object library-call edges; accesses = struct fields of the instrumented packages (maps and slices as one location per field), value-receiver calls = read of every field")
-	rep.Assume("this is the explorer's own happens-before detector, exhaustive over the explored schedules, not the Go race detector over random seeds; it sees struct fields of the instrumented packages only and may miss races on slice elements or on variables that are not struct fields")
+	rep.Set("detector", "vector-clock happens-before over spawn, Mutex/RWMutex, channel, WaitGroup, atomic and (conservatively) per-object library-call edges; accesses = struct fields of the instrumented packages (maps and slices as one location per field), value-receiver calls = read of every field, package-level variables that any function mutates, and local variables captured by a goroutine literal")
+	rep.Assume("this is the explorer's own happens-before detector, exhaustive over the explored schedules, not the Go race detector over random seeds; it sees struct fields, mutated package-level variables and goroutine-captured locals of the instrumented packages and may miss races on individual slice elements or through pointers to locals handed to other functions")
 	rep.Assume("every call on the same badger/bigcache object is treated as ordered (conservative: excludes false alarms)")
 	if tot.Diverged > 0 {
 		fmt.Fprintf(os.Stderr, "C18: %d executions diverged\n", tot.Diverged)
